@@ -212,6 +212,45 @@ def expr_str(e):
     return k
 
 
+def expr_str_casts(e):
+    """like expr_str but keeps explicit casts (they change signedness / width of a comparison)"""
+    e = strip(e)
+    if not isinstance(e, dict):
+        return '?'
+    k = e.get('k')
+    if k == 'Cast' and e.get('style') != 'implicit':
+        return '(%s)%s' % (e.get('t'), expr_str_casts(e['sub']))
+    if k == 'Cast':
+        return expr_str_casts(e['sub'])
+    if k == 'Bin':
+        return '(%s %s %s)' % (expr_str_casts(e['lhs']), e['op'], expr_str_casts(e['rhs']))
+    if k == 'Un':
+        return '%s%s' % (e['op'], expr_str_casts(e['sub']))
+    if k == 'Call' and e.get('ck') == 'operator':
+        return '(' + (' ' + e.get('op', '?') + ' ').join(expr_str_casts(a) for a in e.get('args', [])) + ')'
+    return expr_str(e)
+
+
+def K2s(F, rep, R, ws):
+    """sibling waits: methods of one class that wait on the same condition variable for the same reason must use the same
+    predicate (Engler's cross-check of siblings) - a cast or comparison that differs between them is a one-sided bug"""
+    groups = {}
+    for w in ws:
+        groups.setdefault((w['cls'], w['cv'], w['fn']['simple']), []).append(w)
+    for (cls, cv, simple), lst in sorted(groups.items()):
+        if len(lst) < 2:
+            continue
+        rep.count('K2s')
+        preds = {}
+        for w in lst:
+            preds.setdefault(' || '.join(sorted(expr_str_casts(d) for d in w['disjuncts'])), []).append(w)
+        ok = len(preds) == 1
+        rep.ob('K2s', '%s::%s|%s' % (short(cls), simple, cv), ok, rep.fn_site(lst[0]['fn'], lst[0]['line']),
+               '%d overloads of %s::%s wait on %s with the same predicate' % (len(lst), short(cls), simple, cv) if ok else
+               'overloads of %s::%s wait on %s with different predicates: %s - one of them is wrong' %
+               (short(cls), simple, cv, '  vs  '.join('[%s] (line %s)' % (p_, v[0]['line']) for p_, v in preds.items())), nontrivial=True)
+
+
 def K2(F, rep, R, classes=None):
     """every wait is the predicate overload on a unique_lock of the class mutex; the predicate has an abort disjunct"""
     ws = wait_sites(F, R)
@@ -730,7 +769,7 @@ def T2(F, rep, R, FL, ws):
                 continue
             for n in walk(fn['body']):
                 if n.get('k') == 'Call' and n.get('fn') == 'read' and n.get('l') == c['line'] and len(n.get('args', [])) == 2:
-                    a = strip(n['args'][1])
+                    a = strip(resolve_alias(n['args'][1], fn))
                     if bounded_expr(F, a):
                         nconst += 1
                     else:
@@ -782,6 +821,30 @@ def buffer_tracks_container(F, FL, st):
     return True, '%d setter site(s) adjust both' % setters
 
 
+def resolve_alias(e, fn):
+    """a local initialised once and never reassigned stands for its initialiser (const uint32_t n = f(); ... n ...)"""
+    for _ in range(4):
+        x = strip_all_casts(e)
+        if not (isinstance(x, dict) and x.get('k') == 'Ref' and x.get('dk') == 'local'):
+            return e
+        vid = x['id']
+        init = None
+        for n in walk(fn['body'], into_lambda=False):
+            if n.get('k') == 'Decl':
+                for v in n['vars']:
+                    if v['id'] == vid:
+                        init = v.get('init')
+        if init is None:
+            return e
+        for n in walk(fn['body'], into_lambda=False):
+            if n.get('k') == 'Bin' and n.get('op') in ('=', '+=', '-=', '*=', '/=') and strip_all_casts(n['lhs']).get('id') == vid:
+                return e
+            if n.get('k') == 'Un' and n.get('op') in ('++', '--', '&') and strip_all_casts(n['sub']).get('id') == vid:
+                return e
+        e = init
+    return e
+
+
 def bounded_expr(F, e):
     """the expression is a compile-time bounded quantity: constants, sizeof, size() of std::array members, products/sums of those"""
     e = strip_all_casts(e)
@@ -829,19 +892,29 @@ def Q(F, rep, R, FL):
     for evs, out in paths:
         rep.count('Q2')
         empty_branch = None
+        impure = False
         for e in evs:
             if e['ev'] == 'branch':
                 calls = [x for x in walk(e['n']) if x.get('k') == 'Call' and x.get('fn') == 'empty']
                 if calls:
                     neg = any(x.get('k') == 'Un' and x.get('op') == '!' for x in walk(e['n']))
                     empty_branch = e['taken'] != neg
+                    # the decision must be m_queue.empty() alone: any other atom lets eof be reported while objects remain
+                    c = strip(e['n'])
+                    while isinstance(c, dict) and (c.get('k') == 'Cast' or (c.get('k') == 'Un' and c.get('op') == '!')):
+                        c = strip(c['sub'])
+                    if not (isinstance(c, dict) and c.get('k') == 'Call' and c.get('fn') == 'empty'):
+                        impure = True
         fronts = [i for i, e in enumerate(evs) if e['ev'] == 'call' and e['n'].get('fn') == 'front']
         pops = [i for i, e in enumerate(evs) if e['ev'] == 'call' and e['n'].get('fn') == 'pop']
         rdstate = [e for e in evs if e['ev'] == 'assign' and (member_path(e['n'].get('lhs') or (e['n'].get('args') or [None])[0]) or (None,))[-1] == 'm_rdstate']
         sets_eof = any('eofbit' in str([x.get('q') for x in walk(e['n'])]) for e in rdstate)
         sets_good = any('goodbit' in str([x.get('q') for x in walk(e['n'])]) for e in rdstate)
         ret = [e for e in evs if e['ev'] == 'return']
-        if empty_branch is None:
+        if impure:
+            ok = False
+            what = 'ObjectQueue::read decides between eof and delivery on more than m_queue.empty(): end-of-stream can be reported while objects remain'
+        elif empty_branch is None:
             ok = False
             what = 'ObjectQueue::read path does not test m_queue.empty() after the wait'
         elif empty_branch:
